@@ -51,7 +51,10 @@ def accessors(h):
     dense = ("bin_entries", "bin_edges", "bin_centers", "num_bins", "mpv", "indexes")
     # the dense views of a SparselyBin materialise every index between its lowest and highest filled bin: skip them
     # when that range is huge (a far-outside datum), they would allocate gigabytes by design
-    huge = h.name == "SparselyBin" and h.bins and (max(h.bins) - min(h.bins)) > 5000
+    target = h
+    while target.name == "Select":  # a Select forwards unknown attributes to its cut
+        target = target.cut
+    huge = target.name == "SparselyBin" and bool(target.bins) and (max(target.bins) - min(target.bins)) > 5000
     for name in ("bin_entries", "bin_edges", "bin_centers", "num_bins", "bin_width", "bin_labels", "n_bins", "n_dim", "datatype", "mpv", "size", "keys", "values", "indexes"):
         if huge and name in dense:
             continue
